@@ -467,6 +467,69 @@ func c19InitPath(c *Check, a *Anchors) {
 		}
 		walk(initCall.Args[0], 0)
 	}
+	// ... and verbatim: between the positional argument and InitTaskfile the path goes only through path arithmetic
+	// (path/filepath, filepathext, indexing, concatenation, helpers of the command itself); any other function in the
+	// derivation — a shell word expansion, an environment expansion, a case mapping — rewrites what the user named
+	var rewriters []string
+	{
+		type ctx struct {
+			info *types.Info
+			body ast.Node
+		}
+		seen := map[*types.Var]bool{}
+		seenFn := map[*FuncBody]bool{}
+		var walk func(cx ctx, e ast.Node, depth int)
+		walk = func(cx ctx, e ast.Node, depth int) {
+			if depth > 6 {
+				return
+			}
+			ast.Inspect(e, func(m ast.Node) bool {
+				switch x := m.(type) {
+				case *ast.CallExpr:
+					if tv, ok := cx.info.Types[x.Fun]; ok && tv.IsType() {
+						return true
+					}
+					if id, ok := ast.Unparen(x.Fun).(*ast.Ident); ok {
+						if _, isB := cx.info.Uses[id].(*types.Builtin); isB {
+							return true
+						}
+					}
+					fn, _ := callee(cx.info, x).(*types.Func)
+					if fn == nil || fn.Pkg() == nil {
+						return true
+					}
+					switch pp := fn.Pkg().Path(); {
+					case pp == "path/filepath" || pp == PkgFilepathext || pp == "path":
+					case pp == "os" && fn.Name() == "Getwd":
+					case pp == PkgArgs && fn.Name() == "Get":
+					case pp == PkgArgs && fn.Name() == "Parse": // reported by path-not-through-parser
+					case pp == PkgMain || pp == PkgTask:
+						if h := c.P.DeclOf(fn); h != nil && h.Decl != nil && !seenFn[h] && h != run {
+							seenFn[h] = true
+							for _, r := range returnsOf(h.Body) {
+								for _, res := range r.Results {
+									walk(ctx{h.Info(), h.Body}, res, depth+1)
+								}
+							}
+						}
+					default:
+						rewriters = append(rewriters, fn.Pkg().Name()+"."+fn.Name())
+					}
+				case *ast.Ident:
+					if v, ok := cx.info.Uses[x].(*types.Var); ok && !v.IsField() && !seen[v] {
+						seen[v] = true
+						for _, d := range defsOf(cx.info, cx.body, v) {
+							walk(cx, d, depth+1)
+						}
+					}
+				}
+				return true
+			})
+		}
+		walk(ctx{info, run.Body}, initCall.Args[0], 0)
+	}
+	c.Decide(len(rewriters) == 0, "init-path", "path-verbatim@"+fnDisplay(run), initCall.Pos(), "only path arithmetic lies between the positional argument and InitTaskfile",
+		"the --init path passes through "+strings.Join(rewriters, ", ")+" on its way to InitTaskfile: the file that is checked and written is not the one the user named (`task --init 'price$5.yml'` writes price.yml; a name with a quote fails with a shell parse error)")
 	c.Decide(!viaParse, "init-path", "path-not-through-parser@"+fnDisplay(run), initCall.Pos(), "the path is taken from the raw positional arguments",
 		"the --init path is derived from the result of args.Parse, which removes every argument containing '=' from the calls: `task --init conf/stage=dev.yml` writes ./Taskfile.yml (or refuses because one exists) instead of the requested file")
 	c.Decide(fromPos && !fromQuoted, "init-path", "path-from-positional@"+fnDisplay(run), initCall.Pos(), "derived from the first result of args.Get",
